@@ -5,6 +5,7 @@ import PlasVerif.Spec.Literals
 import PlasVerif.Spec.Conform
 import PlasVerif.Spec.Calls
 import PlasVerif.Generated.ArgPaths
+import PlasVerif.Generated.CatPaths
 /-!
 Driver of C05.  Streams (words after `C05`):
   num <int|dec|dim|dimasis|glue|glueasis> <tok>…     raw token lists (also malformed): model only
@@ -294,6 +295,10 @@ def handle : List String → String
   | "sigtree" :: ws => C05Sig.handle ("sigtree" :: ws)
   | ["paths"] =>
     match PlasVerif.Model.EnableBalance.firstUnbalanced PlasVerif.Generated.ArgPaths.skeletons with
+    | none => "balanced\tbalanced"
+    | some f => s!"unbalanced:{f}\tbalanced"
+  | ["catpaths"] =>
+    match PlasVerif.Model.EnableBalance.firstUnbalanced PlasVerif.Generated.CatPaths.catSkeletons with
     | none => "balanced\tbalanced"
     | some f => s!"unbalanced:{f}\tbalanced"
   | _ => "bad-op"
